@@ -152,6 +152,8 @@ type StubConsensus struct {
 	// ReloadVPR (DPoS-like nodes) reloads the in-memory voting power ranking from the state of the given block, as
 	// dpos.Status.Update does when it is called with a block that is not the child of the previous one
 	ReloadVPR func(b *types.Block)
+	// Leader: behave like the raft leader when asked for a cluster-change proposal (a follower answers "skip")
+	Leader bool
 }
 
 func (s *StubConsensus) IsTransactionValid(tx *types.Tx) bool                     { return true }
@@ -197,7 +199,12 @@ func (s *StubConsensus) IsConnectedBlock(block *types.Block) bool {
 }
 func (s *StubConsensus) IsForkEnable() bool { return true }
 func (s *StubConsensus) MakeConfChangeProposal(req *types.MembershipChange) (*consensus.ConfChangePropose, error) {
-	return nil, consensus.ErrNotSupportedMethod
+	if s.Leader {
+		// what raftv2's block factory returns on the leader: a proposal to be handed to raft after the block
+		return &consensus.ConfChangePropose{Ctx: context.Background()}, nil
+	}
+	// every other raft node
+	return nil, consensus.ErrorMembershipChangeSkip
 }
 
 // ---- node -----------------------------------------------------------------------------------
@@ -409,7 +416,12 @@ func (n *Node) ProduceUntil(prev *types.Block, ts int64, cands []*types.Tx, coin
 	bs.SetGasPrice(system.GetGasPrice())
 	bs.Receipts().SetHardFork(bv, bi.No)
 	out := &Produced{BState: bs, Errors: map[string]error{}}
-	exec := chain.NewTxExecutor(context.Background(), nil, cs.CDB().(contract.ChainAccessor), bi, contract.BlockFactory)
+	// the block factories execute with themselves as the cluster interface
+	var ccc consensus.ChainConsensusCluster
+	if n.DPoS == nil && n.CC != nil {
+		ccc = n.CC
+	}
+	exec := chain.NewTxExecutor(context.Background(), ccc, cs.CDB().(contract.ChainAccessor), bi, contract.BlockFactory)
 	genCtx := &deadlineCtx{Context: context.Background(), done: make(chan struct{})}
 	idxOf := map[string]int{}
 	for i, tx := range cands {
